@@ -1,8 +1,8 @@
 #!/verif/.venv/bin/python
 # Replay of a solver counterexample against the unmodified code (no shims).
-# property=C04 kernel=roundtrip label=abstract:identical_timeline
+# property=C04 kernel=param label=abstract:param_same_static_parts
 import sys
 sys.path[:0] = ["/repo/pulser-core", "/repo/pulser-simulation", "/verif"]
 from symx.replay import replay
-sys.exit(replay(check='checks.c04', kernel='roundtrip', shape={'program': 'basic', 'codec': 'abstract'},
-                assignment={'p0': 0, 'pp0': 1, 'p1': 0, 's0': 0, 'a0': '0/1', 'a1': '5/1', 'd0': 16, 'a2': '1/1024', 'd1': -150940, 'buf#1.start': 0, 'buf#1.end': 0, 'buf#2.start': 0, 'buf#2.end': 5, 'buf#3.start': 0, 'buf#3.end': 0, 'buf#4.start': 0, 'buf#4.end': 3, 'c0': '0/1', 'c1': '0/1', 'c2': '0/1', 'c3': '1/1024', 'buf#11.start': 0, 'buf#11.end': 3, 'buf#12.start': 0, 'buf#12.end': 0, 'area': '1/1024', 'd2': 9, 'buf#25.start': 0, 'buf#25.end': 7}, label='abstract:identical_timeline'))
+sys.exit(replay(check='checks.c04', kernel='param', shape={'program': 'vars_dmm', 'codec': 'abstract'},
+                assignment={'v_x0': '163/1024'}, label='abstract:param_same_static_parts'))
